@@ -240,6 +240,11 @@ static FI run17(const Pool &P, const C17Case &c) {
   hz::Rng r(c.seed);
   std::string prog_small = join(std::vector<std::string>{P.lines[r.below(P.lines.size())], P.lines[r.below(P.lines.size())], "ret"});
   std::string prog_long; int nlong = 1500 + (int)r.below(3000); for (int i = 0; i < nlong; i++) prog_long += P.lines[r.below(P.lines.size())] + "\n";
+  // a third of the file scenarios: the operating system delivers the file in pieces (read() returns at most 64 / 4096 bytes) that end on line ends
+  // (every line is 16 bytes long), so that a refused read() behind the first piece leaves a text that would assemble
+  const bool pieces = (c.scenario == 3 || c.scenario == 4 || c.scenario == 6) && c.seed % 3 == 1;
+  if (pieces) { static const char *W[] = {"add rax, rcx   \n", "mov r9d, 0x1234\n", "vpaddd ymm1,ymm2,ymm3\n", "nop7           \n"}; prog_small.clear(); for (int i = 0; i < 40; i++) prog_small += W[(i + c.seed) % 4 == 2 ? 0 : (i + c.seed) % 4]; prog_long.clear(); for (int i = 0; i < nlong; i++) prog_long += W[(i * 7 + c.seed) % 4 == 2 ? 3 : (i * 7 + c.seed) % 4]; }
+  struct SR { ~SR() { al::short_reads(0); } } sr_guard; al::short_reads(pieces ? (c.scenario == 6 ? 4096 : 64) : 0);
   std::string inpath = tmpdir() + "/fi_in.asm", outpath = tmpdir() + "/fi_out.bin";
   write_file(inpath, c.scenario == 6 ? prog_long : c.scenario >= 7 ? std::string((c.seed % 3) == 2 ? "\n" : "") : prog_small);
   unlink(outpath.c_str());
